@@ -705,7 +705,15 @@ func (h *c01Hist) appendChecked(a, b modeling.Mesh) modeling.Mesh {
 	ca, cb := h.canon(a), h.canon(b)
 	var out modeling.Mesh
 	ans := Guard(func() string { out = a.Append(b); return h.canon(out) })
-	h.c.Emit("c01.append", ca+" | "+cb, ans)
+	if c01Ragged(a) || c01Ragged(b) {
+		// the result depends on the map order: it must be the pure Append for SOME resolution of the two AttributeLength() calls
+		if ans != "panic" {
+			h.c.Emit("c01.holds.append_in_set", ca+" | "+cb+" | "+ans, "true")
+			h.c.Note("append.ragged")
+		}
+	} else {
+		h.c.Emit("c01.append", fmt.Sprintf("%d %d %s | %s", c01AttrLen(a), c01AttrLen(b), ca, cb), ans)
+	}
 	if ans == "panic" {
 		panic("append rejected")
 	}
@@ -715,9 +723,49 @@ func (h *c01Hist) appendChecked(a, b modeling.Mesh) modeling.Mesh {
 func hasPos(m modeling.Mesh) bool { return m.HasFloat3Attribute(modeling.PositionAttribute) }
 func isTri(m modeling.Mesh) bool  { return m.Topology() == modeling.TriangleTopology }
 
+// every attribute length of a mesh (sorted by kind, name)
+func c01Lens(m modeling.Mesh) []int {
+	var out []int
+	for _, a := range m.Float1Attributes() {
+		out = append(out, m.Float1Attribute(a).Len())
+	}
+	for _, a := range m.Float2Attributes() {
+		out = append(out, m.Float2Attribute(a).Len())
+	}
+	for _, a := range m.Float3Attributes() {
+		out = append(out, m.Float3Attribute(a).Len())
+	}
+	for _, a := range m.Float4Attributes() {
+		out = append(out, m.Float4Attribute(a).Len())
+	}
+	return out
+}
+
+// ragged: attribute arrays of different lengths (SetFloatNAttribute does no length check). Mesh.AttributeLength() then
+// depends on Go's randomised map iteration, so Append / ToPointCloud results vary from call to call.
+func c01Ragged(m modeling.Mesh) bool {
+	l := c01Lens(m)
+	for _, x := range l {
+		if x != l[0] {
+			return true
+		}
+	}
+	return false
+}
+
+// deterministic stand-in for AttributeLength(): the smallest attribute length (equal to AttributeLength() unless ragged)
 func c01AttrLen(m modeling.Mesh) int {
-	// all attribute arrays of generated meshes have one length
-	return m.AttributeLength()
+	l := c01Lens(m)
+	if len(l) == 0 {
+		return 0
+	}
+	n := l[0]
+	for _, x := range l {
+		if x < n {
+			n = x
+		}
+	}
+	return n
 }
 
 func c01NoAttrs(m modeling.Mesh) bool {
@@ -755,6 +803,7 @@ var c01OpNames = []string{
 	"flatnormals", "smoothnormals", "smoothnormals.implicitweld", "laplacian", "center", "normalize", "meshops.translate", "meshops.scale",
 	"meshops.rotate", "scalealongnormal", "vertexcolorspace", "transform.chain", "repeat",
 	"write.ply", "write.obj", "write.gltf", "write.stl", "readonly",
+	"ragged", "ragged",
 }
 
 // one operation on the pool; results (possibly none) are returned; a panic of the library is reported as ok=false
@@ -781,7 +830,10 @@ func (h *c01Hist) apply(name string) (res []c01Result, ok bool) {
 			b = h.pick() // possibly a topology mismatch: must panic without touching anything
 		}
 		ma, mb := h.pool[a], h.pool[b]
-		return []c01Result{{h.appendChecked(ma, mb), "append", []int{a, b}, func() modeling.Mesh { return ma.Append(mb) }}}, true
+		if c01Ragged(ma) || c01Ragged(mb) {
+			return one(h.appendChecked(ma, mb), "", a, b), true // value level: set of possible outcomes; immutability re-reads as always
+		}
+		return []c01Result{{h.appendChecked(ma, mb), fmt.Sprintf("append %d %d", c01AttrLen(ma), c01AttrLen(mb)), []int{a, b}, func() modeling.Mesh { return ma.Append(mb) }}}, true
 	case "setindices":
 		a := h.pick()
 		m := h.pool[a]
@@ -807,7 +859,11 @@ func (h *c01Hist) apply(name string) (res []c01Result, ok bool) {
 	case "topointcloud":
 		a := h.pick()
 		m := h.pool[a]
-		return re(func() modeling.Mesh { return m.ToPointCloud() }, "topointcloud", a), true
+		if c01Ragged(m) {
+			h.c.Note("topointcloud.ragged")
+			return one(m.ToPointCloud(), "", a), true
+		}
+		return re(func() modeling.Mesh { return m.ToPointCloud() }, fmt.Sprintf("topointcloud %d", c01AttrLen(m)), a), true
 	case "clearattrs":
 		a := h.pick()
 		return one(h.pool[a].ClearAttributeData(), "clearattrs", a), true
@@ -896,6 +952,23 @@ func (h *c01Hist) apply(name string) (res []c01Result, ok bool) {
 			out = m.SetFloat4Attribute(at, d)
 		}
 		return one(out, fmt.Sprintf("setattr %d %s %d %d", kind, at, n, cp-n), a), true
+	case "ragged":
+		// SetFloatNAttribute with a DIFFERENT length: accepted by the library; AttributeLength() of the result depends on map order
+		a := h.pickWhere(func(m modeling.Mesh) bool { return !c01NoAttrs(m) })
+		if a < 0 {
+			return nil, true
+		}
+		m := h.pool[a]
+		n := c01AttrLen(m) + []int{-1, 1, 2, 5}[rng.Intn(4)]
+		if n < 1 {
+			n = c01AttrLen(m) + 1
+		}
+		if rng.Intn(2) == 0 {
+			d := h.f3s(n, false)
+			return one(m.SetFloat3Attribute("Ragged", d), fmt.Sprintf("setattr 2 Ragged %d %d", n, cap(d)-n), a), true
+		}
+		d := h.f1s(n)
+		return one(m.SetFloat1Attribute("Ragged", d), fmt.Sprintf("setattr 0 Ragged %d %d", n, cap(d)-n), a), true
 	case "modify", "modify.parallel":
 		a := h.pick()
 		m := h.pool[a]
@@ -1156,6 +1229,9 @@ func (h *c01Hist) apply(name string) (res []c01Result, ok bool) {
 		for i := range ts {
 			ts[i] = trs.Position(vector3.New(float64(i), 0., 0.))
 		}
+		if c01Ragged(h.pool[a]) {
+			return one(repeat.Mesh(h.pool[a], ts), "", a), true
+		}
 		return one(repeat.Mesh(h.pool[a], ts), fmt.Sprintf("repeat %d %d", k, c01LenOf(h.pool[a], 2, modeling.PositionAttribute)), a), true
 	case "write.ply":
 		a := h.pick()
@@ -1233,7 +1309,16 @@ func (h *c01Hist) doOp(name string) {
 		}
 		i := h.enter(r.mesh)
 		if r.redo != nil {
-			h.redo = append(h.redo, c01Redo{i, r.redo})
+			// re-derivation is only deterministic when no argument is ragged (AttributeLength() follows the map order)
+			ragged := false
+			for _, a := range r.args {
+				ragged = ragged || c01Ragged(h.pool[a])
+			}
+			if !ragged {
+				h.redo = append(h.redo, c01Redo{i, r.redo})
+			} else {
+				h.c.Note("rederive.skipped.ragged")
+			}
 		}
 	}
 	h.checkAll()
@@ -1265,6 +1350,19 @@ func (h *c01Hist) scriptedBranch() {
 		}()
 		h.checkAll()
 	}
+	if rng.Intn(3) == 0 && !c01NoAttrs(h.pool[base]) {
+		// a RAGGED base: its AttributeLength() — hence the index shift / padding of every Append below — follows Go's map order
+		h.step++
+		h.lastOp = "ragged"
+		base = h.enter(h.pool[base].SetFloat3Attribute("Ragged", h.f3s(c01AttrLen(h.pool[base])+1+rng.Intn(3), false)))
+		h.checkAll()
+		h.step++
+		h.lastOp = "topointcloud"
+		h.enter(h.pool[base].ToPointCloud())
+		h.checkAll()
+		h.lastOp = "append"
+		h.c.Note("scripted.ragged")
+	}
 	for k := 2 + rng.Intn(2); k > 0; k-- { // branches off `base`
 		o := h.enter(h.randomMesh(topo, 1+rng.Intn(4)))
 		h.step++
@@ -1272,11 +1370,15 @@ func (h *c01Hist) scriptedBranch() {
 			defer func() { recover() }()
 			mb, mo := h.pool[base], h.pool[o]
 			r := h.appendChecked(mb, mo)
+			if c01Ragged(mb) || c01Ragged(mo) {
+				h.enter(r) // value level: set oracle above; no sharing-graph line, no re-derivation (map order)
+				return
+			}
 			defer func() {
 				h.redo = append(h.redo, c01Redo{len(h.pool) - 1, func() modeling.Mesh { return mb.Append(mo) }})
 			}()
 			var b strings.Builder
-			fmt.Fprintf(&b, "append ARGS 2 %s %s", h.argMesh(h.pool[base]), h.argMesh(h.pool[o]))
+			fmt.Fprintf(&b, "append %d %d ARGS 2 %s %s", c01AttrLen(mb), c01AttrLen(mo), h.argMesh(h.pool[base]), h.argMesh(h.pool[o]))
 			h.c.Emit("c01.shape", b.String(), h.resultShape(r))
 			h.enter(r)
 		}()
